@@ -6,11 +6,11 @@ CONSTANTS
   MaxLen = 1
   Latests = {0}
   Rule = 127
-  Seed = FALSE
-  EarliestLow = FALSE
+  Seed = TRUE
+  EarliestLow = TRUE
   Guard = TRUE
-  Tendermint = FALSE
-  ZeroOk = FALSE
+  Tendermint = TRUE
+  ZeroOk = TRUE
 INIT TInit
 NEXT TNext
 POSTCONDITION Post
